@@ -32,6 +32,16 @@ class Env:
         return h
 
 
+def fs_fact(name, pathname):
+    """the file-system fact `name`(path) as a solver variable: the same variable wherever and however it is asked"""
+    return z3.Bool("%s_%s" % (name, re.sub(r"\W+", "_", pathname)))
+
+
+def fs_axioms(pathname):
+    e, d, f, l = (fs_fact(n, pathname) for n in ("exists", "is_dir", "is_file", "is_symlink"))
+    return [z3.Implies(d, e), z3.Implies(f, e), z3.Not(z3.And(d, f))]
+
+
 def path_id(eng, st, v):
     """abstract identity of a path argument (&Path / &PathBuf / PathBuf)"""
     if isinstance(v, RefV):
@@ -100,7 +110,23 @@ def install_env(ctx, eng, faults=True, fail_only=None):
                 outs.append(Outcome(err(errty), events=[Event(name, who, "err")]))
             return outs
         return h
-    S(r"^(libfs::)?probably_sparse$", boolres("probably_sparse"))
+    def s_psparse(eng, st, callee, args, dty):
+        f = deref_ref(eng, st, args[0])
+        who = fid(eng, st, args)
+        b = z3.Bool("probably_sparse_%d" % next(eng.fresh_ids))
+        conds = []
+        m = f.attrs.get("meta") if isinstance(f, OpaqueV) else None
+        if m is not None:
+            for nm in ("blocks", "len"):
+                if nm not in m.attrs:
+                    m.attrs[nm] = eng.fresh_int(st, "u64", "%s_%s" % (nm, m.name))
+            # contract checked at L1 (lemma_probably_sparse): st_blocks < st_size / 512
+            conds.append(b == (m.attrs["blocks"].t < m.attrs["len"].t / 512))
+        outs = [Outcome(ok(BoolV(b)), conds, events=[Event("probably_sparse", who, BoolV(b))])]
+        if env.may_fail("probably_sparse"):
+            outs.append(Outcome(err("libfs::Error"), events=[Event("probably_sparse", who, "err")]))
+        return outs
+    S(r"^(libfs::)?probably_sparse$", s_psparse)
     S(r"^(libfs::)?reflink$", boolres("reflink"))
     for nm in ("allocate_file", "copy_permissions", "copy_timestamps", "copy_owner", "sync", "copy_node"):
         S(r"^(libfs::)?%s$" % nm, env.fallible(nm, err_ty="libfs::Error", argsel=fid))
@@ -162,12 +188,18 @@ def install_env(ctx, eng, faults=True, fail_only=None):
         return outs
     S(r"^(std::fs::)?File::metadata$", s_fmeta)
 
-    def s_mlen(eng, st, callee, args, dty):
-        m = deref_ref(eng, st, args[0])
-        if "len" not in m.attrs:
-            m.attrs["len"] = eng.fresh_int(st, "u64", "len_" + m.name)
-        return Outcome(m.attrs["len"])
-    S(r"^(std::fs::)?Metadata::len$", s_mlen)
+    def mattr(name, ty="u64"):
+        def h(eng, st, callee, args, dty):
+            m = deref_ref(eng, st, args[0])
+            if name not in m.attrs:
+                m.attrs[name] = eng.fresh_int(st, ty, "%s_%s" % (name, m.name))
+                if name == "blksize":
+                    st.pc.append(m.attrs[name].t >= 512)
+            return Outcome(m.attrs[name])
+        return h
+    S(r"^(std::fs::)?Metadata::len$|MetadataExt>::(st_)?size$", mattr("len"))
+    S(r"MetadataExt>::(st_)?blocks$", mattr("blocks"))
+    S(r"MetadataExt>::(st_)?blksize$", mattr("blksize"))
 
     def pathop(name, nargs=1, errty="std::io::Error"):
         return env.fallible(name, err_ty=errty, argsel=lambda e, st, a: [path_id(e, st, x) for x in a[:nargs]])
@@ -179,12 +211,21 @@ def install_env(ctx, eng, faults=True, fail_only=None):
     def s_exists(name):
         def h(eng, st, callee, args, dty):
             p = path_id(eng, st, args[0])
-            key = (name, getattr(p, "name", repr(p)))
-            fsm = st.ghost.setdefault("fs", {})
-            if key not in fsm:
-                fsm[key] = z3.Bool("%s_%s_%d" % (name, re.sub(r"\W+", "_", getattr(p, "name", "p")), next(eng.fresh_ids)))
-            return Outcome(BoolV(fsm[key]), events=[Event("Path::" + name, [p], BoolV(fsm[key]))])
+            pn = getattr(p, "name", repr(p))
+            tied = st.ghost.setdefault("fs_tied", set())
+            if pn not in tied:
+                tied.add(pn)
+                st.pc += fs_axioms(pn)
+            a = fs_fact(name, pn)
+            return Outcome(BoolV(a), events=[Event("Path::" + name, [p], BoolV(a))])
         return h
-    S(r"^(std::path::)?Path::exists$", s_exists("exists"))
-    S(r"^(std::path::)?Path::is_dir$", s_exists("is_dir"))
+    for nm in ("exists", "is_dir", "is_file", "is_symlink"):
+        S(r"^(std::path::)?Path::%s$" % nm, s_exists(nm))
+
+    def s_try_exists(eng, st, callee, args, dty):
+        p = path_id(eng, st, args[0])
+        pn = getattr(p, "name", repr(p))
+        return [Outcome(ok(BoolV(fs_fact("exists", pn))), events=[Event("Path::try_exists", [p], "ok")]),
+                Outcome(err("std::io::Error"), events=[Event("Path::try_exists", [p], "err")])]
+    S(r"^(std::path::)?Path::try_exists$", s_try_exists)
     return env
